@@ -436,3 +436,31 @@ PROPS["C03"] = dict(
     level_text="Generated contents and producer shapes against a live worker thread; every field the sink observes is compared with a twin recorded at call time, order with a ticket sweep, thread identity per handler call, and log calls must return while the sink is blocked. Schedules are sampled.",
     level_note="Trusted: harness/rc_async.cpp; ASan detects use of the caller's freed buffers.",
 )
+
+PROPS["C19"] = dict(
+    hyp="hyp_c19.py",
+    runners={"VERIF_RUNNER_CONFIG": dict(kind="rc", harness="runner_config")},
+    builds=[dict(kind="rc", harness="runner_config")],
+    engine="hyp",
+    level="exploration",
+    quick=dict(cases=300, shards=8, max_size=100, timeout=1700),
+    thorough=dict(cases=2500, shards=16, max_size=100, timeout=3400),
+    rule="case = one of: (ini) a subset of the INI keys filter_rules (1..4 ordered rules over the categories default/app.core/app.net/db with wildcards and type suffixes), regexp_filter (menu of 5), "
+    "message_pattern (menu of 4 incl. type conditionals; absent = pretty layout), stdout, stdout_color, stderr, stderr_color, platform_std_log, path, max_file_size, max_file_count, rotate_on_startup, "
+    "rotate_daily, compress_old_files, async - booleans in several spellings, written with QSettings, loaded through configureFromIniFile / configure(QSettings, group), default or custom group - plus 0..2 lines "
+    "left in the log file by an earlier run; (oneline) configure(path, size, count, options, async) arguments; both with a stream of 1..40 messages through qDebug/qInfo/qWarning/qCritical and qC* macros "
+    "over 4 categories; the child's stdout, stderr and log directory are compared with what the keys prescribe (each passing message once per configured output, in order, formatted by the pattern or recognised "
+    "as the pretty layout; file = rotated files in order (gunzipped) + active, count/size/compression/startup rotation as configured; one-line: file lines = console lines minus ESC[..m). (history) 1..14 operations "
+    "from install(logger A/B), foreign qInstallMessageHandler F1..F3, restore, probe, observed after every operation (installed handler read back, probe message receiver). Non-trivial (config) = at least two "
+    "outputs configured and a message filtered out (ini) / a file and >= 2 messages (oneline); (history) >= 2 installs and a foreign handler on top at restore time or two cycles; distinct = canonical case summary.",
+    assumptions=[
+        "stdout/stderr are pipes (colour 'auto' is off); a TTY is not emulated",
+        "restore after install -> foreign -> install may reinstate either the original or that foreign handler (property text and mechanism differ there, DESIGN.md C19); exact everywhere else",
+        "rotate_daily is only exercised, not observed (no clock control in the child); deep rotation semantics are C05-C09's subject, here only the wiring of the keys is observed",
+        "boolean spellings: true/false/1/0 (what QVariant::toBool accepts)",
+    ],
+    floors={"mode_ini": 0.2, "mode_oneline": 0.08, "mode_history": 0.3, "history_two_installs": 0.15, "file_output": 0.2},
+    technique="property-based testing (Hypothesis): generated configurations and message streams executed end to end in a child process and compared with outputs composed from independent oracles (glob rules, regexp predicates, pattern renderers); model-based testing of install/restore histories",
+    level_text="Generated INI key sets / configure() arguments with message streams, executed end to end (2 400 quick / 40 000 thorough child processes), every output compared with the composed expectation; install/restore histories against a handler model after every operation. Not a proof; pattern/regexp/rule menus are small on purpose (their own semantics are C12/C15/C16).",
+    level_note="Trusted: harness/runner_config.cpp, the oracles in py/hyp_c19.py (glob matcher, renderers, file reader).",
+)
